@@ -653,6 +653,41 @@ func propC18(c *vs.Case, nSubs, nRes, length int, heavyOps bool) error {
 		}
 		for _, res := range c18Names(nRes) {
 			res := res
+			if !heavyOps || len(w.handlersOn(res)) == 0 || breaks >= 2 {
+				continue // (two pauses of the reflector: see the budget above)
+			}
+			ops = append(ops, op{"watch of " + res + " breaks and the next LIST is answered 404 once", func() error {
+				// the resource is momentarily gone from the API server (its CRD is being re-created): a transient
+				// condition like any other failed LIST - the informer keeps retrying and its subscribers keep working
+				var once int32
+				w.sim.Before = func(r *vs.Request) *vs.Fault {
+					if r.Verb == "list" && r.Def.Resource == c18Name(res) && atomic.CompareAndSwapInt32(&once, 0, 1) {
+						return &vs.Fault{Code: 404, Reason: "NotFound", Message: "the server could not find the requested resource"}
+					}
+					return nil
+				}
+				defer func() { w.sim.Before = nil }()
+				active := w.handlersOn(res)
+				w.sim.CompactHistory(res)
+				w.sim.ExpireWatches(res)
+				breaks += 2
+				if !poll(15*time.Second, func() bool { return atomic.LoadInt32(&once) == 1 }) {
+					return fmt.Errorf("harness: the informer of %s did not list again after its watch broke", res)
+				}
+				name := fmt.Sprintf("after404-%d", step)
+				w.sim.ExtCreate(c18Name(res), map[string]any{"metadata": map[string]any{"name": name, "namespace": "ns1"}})
+				c.Class("list-answered-404-once")
+				for _, h := range active {
+					hh := h
+					if !poll(15*time.Second, func() bool { return hh.has(name, "") }) {
+						return vs.Violf("C18/event-not-delivered", "the watch of %s broke and the next LIST was answered 404 once; 15 s later handler %s has still not received %s, created afterwards (the informer gave up)", res, hh.id, name)
+					}
+				}
+				return nil
+			}})
+		}
+		for _, res := range c18Names(nRes) {
+			res := res
 			if hidden[res] || w.sim.Get(res, "ns1", "pre") == nil {
 				continue
 			}
